@@ -782,6 +782,17 @@ def run(ses, rep):
 
 
 def replay(path):
+    try:
+        r = json.load(open(path)).get("replay", {})
+    except Exception:
+        r = {}
+    if "lines" in r:          # recorded by the big-file replay (a `no change` test that loses a single changed line)
+        for fmt in ("unified", "standard", "json"):
+            v, rec = big_file_replay(fmt)
+            if v:
+                print(v)
+                print(f"VIOLATION property=C18 replay={path}")
+                return 1
     fails = battery()
     for f in fails:
         print(f[2])
